@@ -428,4 +428,69 @@ theorem union_comm (db : Db) (a b : Query) (cs : List Col) :
     obtain ⟨r0, h0, rfl⟩ := (mem_union_set db b a u).1 hu
     exact ⟨_, (mem_union_set db a b _).2 ⟨r0, h0.symm, rfl⟩, restrict_restrict_perm cs _ _ r0 hperm⟩
 
+/-! ### restrictions into the sources of a join / product -/
+
+theorem mem_diffCols (a b : List Col) (c : Col) : c ∈ diffCols a b ↔ c ∈ a ∧ c ∉ b := by
+  simp only [diffCols, List.mem_filter, Bool.not_eq_true', Bool.eq_false_iff, ne_eq,
+    List.contains_iff_mem]
+
+/-- the left part of a joined row is read unchanged on the left source's columns -/
+theorem get_join_left (r1 r2 : Row) (ca cb : List Col) (c : Col) (hc : c ∈ ca) :
+    QExpr.get (r1 ++ restrict (diffCols cb ca) r2) c = QExpr.get r1 c := by
+  have hn : c ∉ diffCols cb ca := fun h => ((mem_diffCols cb ca c).1 h).2 hc
+  simp only [QExpr.get, List.lookup_append, lookup_restrict_none r2 c _ hn, Option.or_none]
+
+theorem mem_join (db : Db) (a b : Query) (r : Row) :
+    r ∈ evalQ db (.join a b) ↔ ∃ r1, r1 ∈ evalQ db a ∧ ∃ r2, r2 ∈ evalQ db b ∧
+      eqOn (interCols (colsQ db a) (colsQ db b)) r1 r2 = true ∧
+      r1 ++ restrict (diffCols (colsQ db b) (colsQ db a)) r2 = r := by
+  simp only [evalQ, List.mem_flatMap, List.mem_map, List.mem_filter]
+  constructor
+  · rintro ⟨r1, h1, r2, ⟨h2, he⟩, rfl⟩; exact ⟨r1, h1, r2, h2, he, rfl⟩
+  · rintro ⟨r1, h1, r2, h2, he, rfl⟩; exact ⟨r1, h1, r2, ⟨h2, he⟩, rfl⟩
+
+/-- a restriction that reads only the first source's columns moves into that source
+(`Where.split` over a join) -/
+theorem where_into_join_left (db : Db) (a b : Query) (e : Expr) (h : Sub e.cols (colsQ db a)) :
+    SetEq (evalQ db (.where_ (.join a b) e)) (evalQ db (.join (.where_ a e) b)) := by
+  intro r
+  rw [mem_where, mem_join, mem_join]
+  have hcols : colsQ db (.where_ a e) = colsQ db a := rfl
+  rw [hcols]
+  constructor
+  · rintro ⟨⟨r1, h1, r2, h2, he, rfl⟩, ht⟩
+    have hev : eval (r1 ++ restrict (diffCols (colsQ db b) (colsQ db a)) r2) e = eval r1 e :=
+      eval_congr _ _ e (fun c hc => get_join_left r1 r2 _ _ c (h c hc))
+    rw [hev] at ht
+    exact ⟨r1, (mem_where db a e r1).2 ⟨h1, ht⟩, r2, h2, he, rfl⟩
+  · rintro ⟨r1, h1, r2, h2, he, rfl⟩
+    have h1' := (mem_where db a e r1).1 h1
+    have hev : eval (r1 ++ restrict (diffCols (colsQ db b) (colsQ db a)) r2) e = eval r1 e :=
+      eval_congr _ _ e (fun c hc => get_join_left r1 r2 _ _ c (h c hc))
+    exact ⟨⟨r1, h1'.1, r2, h2, he, rfl⟩, by rw [hev]; exact h1'.2⟩
+
+/-- `times`: the same for a product -/
+theorem where_into_times_left (db : Db) (a b : Query) (e : Expr)
+    (hwf : ∀ r1, r1 ∈ evalQ db a → ∀ c, c ∈ e.cols → r1.lookup c ≠ none) :
+    SetEq (evalQ db (.where_ (.times a b) e)) (evalQ db (.times (.where_ a e) b)) := by
+  intro r
+  rw [mem_where]
+  simp only [evalQ, List.mem_flatMap, List.mem_map, List.mem_filter]
+  have hget : ∀ r1 r2 : Row, r1 ∈ evalQ db a → eval (r1 ++ r2) e = eval r1 e := by
+    intro r1 r2 h1
+    apply eval_congr
+    intro c hc
+    have := hwf r1 h1 c hc
+    simp only [QExpr.get, List.lookup_append]
+    cases hl : List.lookup c r1 with
+    | none => exact absurd hl this
+    | some v => rfl
+  constructor
+  · rintro ⟨⟨r1, h1, r2, h2, rfl⟩, ht⟩
+    rw [hget r1 r2 h1] at ht
+    exact ⟨r1, ⟨h1, ht⟩, r2, h2, rfl⟩
+  · rintro ⟨r1, ⟨h1, ht⟩, r2, h2, rfl⟩
+    exact ⟨⟨r1, h1, r2, h2, rfl⟩, by rw [hget r1 r2 h1]; exact ht⟩
+
+
 end Gsu.Qry
